@@ -777,26 +777,24 @@ Fixpoint view_node (fuel : nat) (s : state) (n : node) : option tree :=
       | None => None
       end
   end.
-(* every directory a walk from the root reaches gets loaded *)
-Fixpoint load_all_from (fuel : nat) (p : path) : M unit :=
+(* every directory a walk from the root reaches gets loaded (what the harness' tree dump does to
+   the cache: LOOKUP/READDIR on every visible name call load_directory on every visible directory) *)
+Fixpoint load_node (fuel : nat) (s : state) (n : node) : node :=
   match fuel with
-  | O => ret tt
+  | O => n
   | S f =>
-      n <- get_node p ;;
-      if n_wh n then ret tt else
-      fun s => match node_stat s n with
-               | Some (Dir _ _ _) =>
-                   let s1 := snd (load_dir p s) in
-                   match nget p (root s1) with
-                   | Some n1 =>
-                       (Ok tt, fold_left (fun acc kv => snd (load_all_from f (p ++ [fst kv]) acc)) (n_ch n1) s1)
-                   | None => (Ok tt, s1)
-                   end
-               | _ => (Ok tt, s)
-               end
+      if n_wh n then n else
+      match node_stat s n with
+      | Some (Dir _ _ _) =>
+          let n1 := if n_loaded n then n
+                    else match scan_children s n with Ok cs => set_loaded cs n | Err _ => n end in
+          Node (n_reals n1) (n_wh n1) (n_loaded n1) (map (fun kv => (fst kv, load_node f s (snd kv))) (n_ch n1))
+      | _ => n
+      end
   end.
 Definition DEPTH : nat := 12.
-Definition load_all (s : state) : state := snd (load_all_from DEPTH [] s).
+Definition load_all (s : state) : state :=
+  mkState (upper s) (lowers s) (load_node DEPTH s (root s)) (next_ino s) (log s).
 Definition view (s : state) : option tree := view_node DEPTH s (root s).
 
 (* OverlayFs::new + import *)
@@ -935,13 +933,11 @@ Fixpoint dir_stack (ts : list tree) : list tree :=
   | (Dir _ x _ as d) :: r => if xs_opaque x then [d] else d :: dir_stack r
   | _ => []
   end.
-Fixpoint nodup_names (seen : list name) (l : list name) : list name :=
-  match l with
-  | [] => []
-  | n :: r => if existsb (String.eqb n) seen then nodup_names seen r else n :: nodup_names (n :: seen) r
-  end.
-Definition stack_names (st : list tree) : list name :=
-  nodup_names [] (flat_map (fun d => map fst (dir_children d)) st).
+(* the entries of the stacked directories grouped by name, each group top first *)
+Definition add_tree (acc : list (name * list tree)) (e : name * tree) : list (name * list tree) :=
+  aset (fst e) (match afind (fst e) acc with Some l => l ++ [snd e] | None => [snd e] end) acc.
+Definition collect_trees (st : list tree) : list (name * list tree) :=
+  fold_left (fun acc d => fold_left add_tree (dir_children d) acc) st [].
 (* what is visible under one name, given the entries of that name per layer, top first *)
 Fixpoint resolve (fuel : nat) (es : list tree) : option tree :=
   match fuel with
@@ -951,11 +947,10 @@ Fixpoint resolve (fuel : nat) (es : list tree) : option tree :=
       | [] => None
       | Wh :: _ => None
       | Dir m x _ :: _ =>
-          let st := dir_stack es in
           Some (Dir m (user_xs x)
-                  (filter_map (fun n => match resolve f (filter_map (fun d => afind n (dir_children d)) st) with
-                                        | Some t => Some (n, t) | None => None end)
-                              (stack_names st)))
+                  (filter_map (fun kv => match resolve f (snd kv) with
+                                         | Some t => Some (fst kv, t) | None => None end)
+                              (collect_trees (dir_stack es))))
       | t :: _ => Some (hide_xs t)
       end
   end.
